@@ -64,8 +64,15 @@ func (m *Manager) SetSyncedTo(ns walletdb.ReadWriteBucket, bs *BlockStamp) error
 		return err
 	}
 
-	// Update memory now that the database is updated.
-	m.syncState.syncedTo = *bs
+	// Update memory once the database transaction has been committed: a
+	// transaction that is rolled back must not leave the in-memory sync
+	// point ahead of (or behind) the one on disk.
+	syncedTo := *bs
+	ns.Tx().OnCommit(func() {
+		m.mtx.Lock()
+		m.syncState.syncedTo = syncedTo
+		m.mtx.Unlock()
+	})
 	return nil
 }
 
